@@ -100,7 +100,7 @@ func ruleExh(c *Ctx) {
 		prod, how := b.producerTypes()
 		l.stat("R-EXH").Extra[b.Name+"_producer_types"] = typeSetString(prod)
 		for _, name := range []string{"getDiff", "matchesValue"} {
-			fn := fnOf(b.Lib, name)
+			fn := b.roleFn(name)
 			if fn == nil {
 				l.add("R-EXH", b.Name, name+": anchor", "", Undecided, name+" not found", false)
 				continue
